@@ -16,8 +16,8 @@ META = {
     "category": "model_checking",
     "text": "Login.tla defines the allowed reaction to every client login packet as one relation Step; TLC "
             "enumerates all client packet sequences (<= 3 quick / 4 thorough) over login start (valid/invalid "
-            "name), encryption response (token exact/wrong/garbage x secret ok/garbage/short), stray plugin "
-            "response and unknown packet, for every pre-login result and session-server outcome; each is "
+            "name), encryption response (token exact/wrong/garbage/empty/prefix/longer x secret ok/garbage/short), stray plugin "
+            "response and unknown packet, for every pre-login result and session-server outcome (incl. a server that confirms any server id); each is "
             "replayed on the live proxy with the real authenticator and the recorded reactions, registry "
             "lookups and session-server queries are validated by TLC against the same relation.",
     "design_ref": "DESIGN.md section 4, C08",
@@ -50,11 +50,15 @@ def run(ctx):
         total_states += r.distinct
         rnd = random.Random(ctx.seed * 7 + cfg_online)
         if ctx.quick:
-            # all short histories, and a seeded sample of the long ones
-            short = [h for h in hists if len(h["h"]) <= 2]
-            long_ = [h for h in hists if len(h["h"]) > 2]
-            rnd.shuffle(long_)
-            hists = short + long_[:250 if cfg_online else 80]
+            # every one-packet history and every [login start, encryption response] history,
+            # plus a seeded sample of the rest
+            def core(h):
+                ks = [x["k"] for x in h["h"]]
+                return len(ks) == 1 or ks == ["start", "enc"]
+            must = [h for h in hists if core(h)]
+            rest = [h for h in hists if not core(h)]
+            rnd.shuffle(rest)
+            hists = must + rest[:350 if cfg_online else 120]
         else:
             rnd.shuffle(hists)
             hists = hists[:12000]
@@ -64,6 +68,7 @@ def run(ctx):
             json.dump(hists, fh)
         ctx.harness("./c08", "TestReplay", env={"VERIF_CFG_ONLINE": "1" if cfg_online else "0"}, timeout=1500)
         st = json.load(open(ctx.path("stats.json")))
+        ctx.log("replayed")
         all_runs += st["runs"]
         if st.get("slow"):
             ctx.log("slow reactions (>1s): %d, e.g. %s" % (len(st["slow"]), st["slow"][:3]))
@@ -76,6 +81,7 @@ def run(ctx):
         rejected, matched, tstates = ctx.validate_runs("Login_Trace", recs, cfg_text=tcfg)
         matched_total += matched
         total_states += tstates
+        ctx.log("trace validated: %d events" % matched)
         for rj in rejected:
             reset, bad = rj["run"][0], rj["bad"] or {}
             prior = [x.get("k") for x in rj["run"][1:rj["bad_index"]]]
